@@ -49,15 +49,16 @@ Finish == ~done /\ done' = TRUE /\ UNCHANGED <<typ, rows, objs, bpms, off>>
 Next == AddBpm \/ AddObj \/ Finish
 Spec == Init /\ [][Next]_vars
 
-(* ---- lay the objects out as rows ---- *)
-SymAt(i, c) ==
-    LET H == { q \in DOMAIN objs : objs[q].i = i /\ objs[q].c = c }
-        T == { q \in DOMAIN objs : objs[q].j = i /\ objs[q].c = c /\ objs[q].k \in {"2", "4"} }
-    IN  IF H # {} THEN objs[CHOOSE q \in H : TRUE].k ELSE IF T # {} THEN "3" ELSE "0"
-Measure(m) == LET base == IF m = 1 THEN 0 ELSE rows[1] IN
-              [r \in 1..rows[m] |-> [c \in 1..KeysOf(typ) |-> SymAt(base + r - 1, c - 1)]]
+(* ---- the objects as the sparse cell list of the chart (file order) ---- *)
+RowOf(i) == IF i < rows[1] THEN [m |-> 1, r |-> i + 1, n |-> rows[1]] ELSE [m |-> 2, r |-> i - rows[1] + 1, n |-> rows[2]]
+CellSet == { [i |-> objs[q].i, c |-> objs[q].c, s |-> objs[q].k] : q \in DOMAIN objs } \cup
+           { [i |-> objs[q].j, c |-> objs[q].c, s |-> "3"] : q \in { q \in DOMAIN objs : objs[q].k \in {"2", "4"} } }
+RECURSIVE CellSeq(_)
+CellSeq(S) == IF S = {} THEN <<>>
+              ELSE LET x == CHOOSE x \in S : \A y \in S : x.i < y.i \/ (x.i = y.i /\ x.c <= y.c) IN
+                   << [m |-> RowOf(x.i).m, r |-> RowOf(x.i).r, c |-> x.c + 1, n |-> RowOf(x.i).n, s |-> x.s] >> \o CellSeq(S \ {x})
 Chart == [type |-> typ, desc |-> "", diff |-> "Hard", meter |-> "7", radar |-> "0,0,0,0,0", keys |-> KeysOf(typ),
-          nfields |-> 6, measures |-> << Measure(1), Measure(2) >>]
+          nfields |-> 6, cells |-> CellSeq(CellSet), rows |-> rows, widths |-> <<KeysOf(typ)>>, symbols |-> <<"0">>]
 File == [off |-> off, bpms |-> bpms, charts |-> <<Chart>>, junk |-> 0]
 
 DenotationTotal == done =>
